@@ -488,6 +488,8 @@ package larking
 //@   assert at "if next, ok := p.segments[segment]; ok {" [edge-key C01] len(segment) == len(toks[0].val) + len(toks[1].val)
 //@        && segment[0] == toks[0].val[0] && (forall k :: 0 <= k && k < len(toks[1].val) ==> segment[len(toks[0].val) + k] == toks[1].val[k])
 //@   assert at "l := v.index(toks[1:]) + 1" [slash-guard C01] toks[0].typ == tokenSlash
+//@   count lits `next.search(`
+//@   assert atcall `v.index(` [literal-child-searched-before-any-variable C02] p.segments != nil && maphas(p.segments, segment) ==> lits == 1
 //@   ensures [found] err == nil ==> m != nil && len(m.vars) == gf(p, "depth") + len(ps)
 //@   loop 1 invariant -1 <= rangeindex && rangeindex < len(p.variables)
 //@   loop 1 decreases len(p.variables) - rangeindex
@@ -641,6 +643,10 @@ package larking
 //@   count ends `sh.HandleRPC(ctx, &stats.End{`
 //@   ensures [one-snapshot C12] loads == 1
 //@   ensures [end-after-begin C18] begins == ends
+//@   assert atcall `ws.NewCloseFrameBody(` [websocket-close-code-is-the-mapped-code C05] (StatusCodeOf(s#2) <= 16 ==> arg0 == WSOf(StatusCodeOf(s#2))) && (StatusCodeOf(s#2) > 16 ==> arg0 == 1011)
+//@   count tags `sh.TagRPC(`
+//@   count inheaders `sh.HandleRPC(ctx, &stats.InHeader{`
+//@   assert atcall `sh.HandleRPC(ctx, &stats.Begin{` [tag-then-in-header-then-begin C18] tags == 1 && inheaders == 1 && begins == 0
 //@   assert atcall `sh.HandleRPC(ctx, &stats.End{` #1 [websocket-end-carries-the-handlers-error C18] ptr(pay(arg1), "stats.End").Error == herr
 //@   assert atcall `sh.HandleRPC(ctx, &stats.End{` #2 [end-carries-the-handlers-error C18] ptr(pay(arg1), "stats.End").Error == herr#2
 //@   assert atcall `w.Header().Set("Content-Encoding"` #1 [announced-encoding-is-negotiated-and-applied C04] arg2 == acceptEncoding && cz#2 != nil
@@ -747,6 +753,11 @@ package larking
 //@   count ends `sh.HandleRPC(ctx, &stats.End{`
 //@   ensures [end-after-begin C18] begins == ends
 //@   assert atcall `sh.HandleRPC(ctx, &stats.End{` [end-carries-the-handlers-error C18] ptr(pay(arg1), "stats.End").Error == herr
+//@   count tags `sh.TagRPC(`
+//@   count inheaders `sh.HandleRPC(ctx, &stats.InHeader{`
+//@   assert atcall `sh.HandleRPC(ctx, &stats.Begin{` [tag-then-in-header-then-begin C18] tags == 1 && inheaders == 1 && begins == 0
+//@   assert atcall `h.Set("Grpc-Status"` [grpc-status-is-the-handlers-code C05] arg2 == FormatInt(StatusCodeOf(st), 10)
+//@   assert atcall `h.Set("Grpc-Message"` [grpc-message-is-the-encoded-message C05] hcalls == 1
 //@   callsites `http.Error(` 7
 //@   ensures [handler-or-refusal C15 C08] hcalls == 1 || refusals == 1
 //@   ensures [no-handler-after-refusal C15] refusals == 1 ==> hcalls == 0
@@ -803,6 +814,7 @@ package larking
 //@ func twirpCodeName serves C05 C09 pure
 //@   ensures [twirp-table C05] TwirpNameOK(c, result)
 //@ det StatusCodeOf "(*status.Status).Code" int
+//@ det FormatInt "strconv.FormatInt" string
 // (the HTTP status written for an error is the mapped status of its code, on both
 // the Twirp and the negotiated path)
 //@ func (*Mux).encError serves C05 C09 partial panic ghost nil[c.Marshal
@@ -1081,6 +1093,8 @@ package larking
 //@   assert at "switch tok.typ {" [walk C16] St(l, i) == 3 && St(l, i + 1) != 0
 //@   assert at "val := next()" [walk C16] St(l, i + 1) == 9 && i + 1 < l.len
 //@   assert at "switch rule.ResponseBody {" [body-resolved C09 C16] AllSingular(m.body)
+//@   assert atcall `p.addRule(` [no-nested-additional-bindings C16] len(addRule.AdditionalBindings) == 0
+//@   assert at "varfds = append(varfds, fds)" [unknown-field-path-rejected C16] fds != nil
 //@   assert at `if verb == "*" {` [body-walkable C09 C16] AllSingular(m.body)
 //@   assert at `if verb == "*" {` [response-body-walkable C04 C09 C16] AllSingular(m.resp)
 //@   cover at "vars = append(vars, nxt)" [reach-variable-segments] i > 3
